@@ -136,6 +136,12 @@ func c10Case(cmdKinds [][]string, withConst bool, special string) *Case {
 		lb := &Label{Name: atoms.New(ClsUserName, "lbl", "names"), Scope: "global"}
 		body = append([]Stmt{body[0], lb}, body[1:]...)
 		cmds = append([]*c10Cmd{cmds[0], {label: lb}}, cmds[1:]...)
+	case "mid-end", "mid-return":
+		// a terminating command in the middle of the straight-line stretch:
+		// the commands after it are still part of the script's text
+		kw := strings.TrimPrefix(special, "mid-")
+		body = append([]Stmt{body[0], &Cmd{Name: L(kw)}}, body[1:]...)
+		cmds = append([]*c10Cmd{cmds[0], {name: L(kw)}}, cmds[1:]...)
 	case "label-local":
 		lb := &Label{Name: atoms.New(ClsUserName, "lbl", "names"), Scope: "local"}
 		body = append([]Stmt{body[0], lb}, body[1:]...)
@@ -213,6 +219,11 @@ func trimTrailingEmpty(ls []interp.Value) []interp.Value {
 }
 
 // RunC10 is the check of property C10.
+// every keyword spelling of the lexer except format and moves (operators
+// inside argument lists)
+var c10Keywords = []string{"global", "local", "TRUE", "FALSE", "true", "false", "value", "var", "flag", "defeated", "if", "else", "elif", "do", "while", "break", "continue",
+	"switch", "case", "default", "script", "raw", "text", "movement", "mart", "mapscripts", "poryswitch", "const"}
+
 func RunC10(env *Env, rep *Report) {
 	maxTok := 4
 	if env.Tier == "thorough" {
@@ -224,7 +235,7 @@ func RunC10(env *Env, rep *Report) {
 		cases = append(cases, c10Case([][]string{l}, false, ""))
 	}
 	// every keyword in every position of the lists of up to 3 tokens
-	for _, kw := range []string{"global", "local", "TRUE", "value", "var", "flag", "if", "default"} {
+	for _, kw := range c10Keywords {
 		c10ForceKeyword = kw
 		for _, l := range enumTokenLists(3) {
 			hasK := false
@@ -258,14 +269,14 @@ func RunC10(env *Env, rep *Report) {
 		for _, b := range short {
 			cases = append(cases, c10Case([][]string{a, nil, b}, false, ""))
 		}
-		for _, sp := range []string{"label", "label-global", "label-local"} {
+		for _, sp := range []string{"label", "label-global", "label-local", "mid-end", "mid-return"} {
 			cases = append(cases, c10Case([][]string{a, {"K"}, a}, false, sp))
 		}
 		cases = append(cases, c10Case([][]string{a, a}, true, ""))
 	}
 	cases = append(cases, c10PoryswitchCase(true), c10PoryswitchCase(false), c10SwitchBodyCase())
 	rep.Technique = "symbolic execution of the real command parser and renderer (go/ssa) with symbolic token literals; rope equalities between output lines and the token-wise reference, aliasing with constant names decided by the solver (z3)"
-	rep.Explanation = "Bounded symbolic verification, not a proof. Every argument token list up to the length bound over {identifier, number, keyword, operator, '(', ')', ','} with balanced parentheses and non-empty arguments (plus the no-parenthesis form, empty parentheses, several commands in a row and the label look-alikes) is compiled by symbolic execution of the real code with all identifier and number tokens symbolic. Each output line must equal, as a rope and hence for every name and number, the reference rendering: tab, the unchanged command name, the argument tokens in order joined by single spaces with ', ' at every comma; lines in source order. With a constant defined, whether an identifier token equals the constant's name is a solver-decided fork (every aliasing pattern is explored) and the reference substitutes the constant's value exactly there."
+	rep.Explanation = "Bounded symbolic verification, not a proof. Every argument token list up to the length bound over {identifier, number, keyword, operator, '(', ')', ','} with balanced parentheses and non-empty arguments (plus the no-parenthesis form, empty parentheses, several commands in a row, the label look-alikes, every keyword spelling of the lexer as an argument token, and a stretch with 'end' / 'return' in the middle, whose later commands must still all be emitted) is compiled by symbolic execution of the real code with all identifier and number tokens symbolic. Each output line must equal, as a rope and hence for every name and number, the reference rendering: tab, the unchanged command name, the argument tokens in order joined by single spaces with ', ' at every comma; lines in source order. With a constant defined, whether an identifier token equals the constant's name is a solver-decided fork (every aliasing pattern is explored) and the reference substitutes the constant's value exactly there."
 	rep.Bounds = map[string]interface{}{"max_tokens_per_argument_list": maxTok, "token_lists": len(lists), "cases": len(cases), "const_aliasing": "lists of up to 3 tokens with one constant definition", "commands_in_a_row": "up to 3, lists of up to 2 tokens"}
 	rep.Outside = []string{"longer argument lists", "inline text / format() / moves() arguments (C06, C07)", "empty arguments (a leading, doubled or trailing comma)"}
 	rep.Assumptions = []string{"identifier tokens are identifiers other than keywords; command names are not control-flow instruction names", "numbers are canonical decimal integers (hex / negative forms appear as literals in other checks)"}
